@@ -4,6 +4,8 @@ import FFVerif.Props.C03d
 import FFVerif.Pins.pinConcatenate
 import FFVerif.Pins.pinConcatenateWithoutFF
 import FFVerif.Pins.pinControlMatrixFromAtomic
+import FFVerif.Pins.pinBasisArrayFinalize
+import FFVerif.Pins.pinHashArray
 #print axioms FFVerif.C03a.concat_error_is_valueError
 #print axioms FFVerif.C03a.concat_errors_iff
 #print axioms FFVerif.C03a.concat_sorted
@@ -73,3 +75,5 @@ import FFVerif.Pins.pinControlMatrixFromAtomic
 #print axioms FFVerif.Pins.pinConcatenate
 #print axioms FFVerif.Pins.pinConcatenateWithoutFF
 #print axioms FFVerif.Pins.pinControlMatrixFromAtomic
+#print axioms FFVerif.Pins.pinBasisArrayFinalize
+#print axioms FFVerif.Pins.pinHashArray
